@@ -378,6 +378,45 @@ def check_number_to_str(repo, rep):
     rep.ob("C08.R5", blk, "number_to_str: mantissa reduced to its digits", ok, "", key="C08.R5@number_to_str:digits")
 
 
+def _check_date_value(repo, rep, m, h, base_txt):
+    """The rendered datetime is the 2001-01-01 epoch plus exactly the stored number of seconds."""
+    expr = None
+    try:
+        expr = ast.parse(base_txt, mode="eval").body
+    except SyntaxError:
+        pass
+    hops = 0
+    while isinstance(expr, ast.Name) and hops < 3:
+        defs = [n for n in body_walk(m) if isinstance(n, ast.Assign) and len(n.targets) == 1 and U(n.targets[0]) == expr.id]
+        if len(defs) != 1:
+            break
+        expr = defs[0].value
+        hops += 1
+
+    def is_epoch(e):
+        if isinstance(e, ast.Name):
+            v = repo.module_assign("constants.py", e.id) or repo.module_assign("formula.py", e.id)
+            return v is not None and is_epoch(v)
+        return (isinstance(e, ast.Call) and last_attr(e.func) == "datetime" and [try_const(a) for a in e.args] == [2001, 1, 1]
+                and not [k for k in e.keywords if k.arg not in ("tzinfo",)])
+
+    def is_stored_seconds(e):
+        if not (isinstance(e, ast.Call) and last_attr(e.func) == "timedelta"):
+            return False
+        kws = {k.arg: k.value for k in e.keywords}
+        if e.args or set(kws) != {"seconds"}:
+            return False
+        v = kws["seconds"]
+        return isinstance(v, ast.Attribute) and v.attr.endswith("_dateNum") or (isinstance(v, ast.Name) and any(
+            isinstance(n, ast.Assign) and U(n.targets[0]) == v.id and isinstance(n.value, ast.Attribute) and n.value.attr.endswith("_dateNum") for n in body_walk(m)))
+
+    ok = (isinstance(expr, ast.BinOp) and isinstance(expr.op, ast.Add)
+          and ((is_epoch(expr.left) and is_stored_seconds(expr.right)) or (is_epoch(expr.right) and is_stored_seconds(expr.left))))
+    rep.ob("C08.R5", m, f"{h}: the date is datetime(2001, 1, 1) + timedelta(seconds=<stored dateNum>)", ok,
+           "" if ok else f"the rendered date is `{U(expr) if expr is not None else base_txt}`: rounding, another unit or another epoch prints a different day for some stored instants",
+           key=f"C08.R5@{h}:value")
+
+
 def run(repo, rep, tier):
     tree = repo.tree("formula.py")
     nfm_node = repo.module_assign("formula.py", "NODE_FUNCTION_MAP")
@@ -621,8 +660,12 @@ def run(repo, rep, tier):
         for env in Interp(m, top_first).run():
             for v, call, _ in env["__pushes"]:
                 got = _parts_repr(v)
-                ok = got == "DATE({<dt.year>},{<dt.month>},{<dt.day>})"
+                import re as _re
+                mm = _re.fullmatch(r"DATE\(\{<(.+)\.year>\},\{<(.+)\.month>\},\{<(.+)\.day>\}\)", got)
+                ok = bool(mm) and mm.group(1) == mm.group(2) == mm.group(3)
                 rep.ob("C08.R5", m, f"{h}: DATE(year,month,day)", ok, "" if ok else f"renders `{got}`", key=f"C08.R5@{h}")
+                if ok:
+                    _check_date_value(repo, rep, m, h, mm.group(1))
     h = nfm.get("EMPTY_ARGUMENT_NODE")
     if h in methods:
         m = methods[h][0]
@@ -669,6 +712,11 @@ VARIANTS = [
       'args = ",".join([str(x) for x in args])\n        self.push(f"({args})")', "C08.R4"),
     M("array-rows-not-reversed", "formula.py", 'args = ";".join(reversed(rows))', 'args = ";".join(rows)', "C08.R4"),
     M("popn-prepends", "formula.py", "values += (self._stack.pop(),)", "values = (self._stack.pop(),) + values", "C08.R"),
+    M("date-rounded-to-days", "formula.py", "dt = datetime(2001, 1, 1) + timedelta(seconds=node.AST_date_node_dateNum)", "dt = datetime(2001, 1, 1) + timedelta(days=round(node.AST_date_node_dateNum / 86400))", "C08.R5"),
+    M("date-unix-epoch", "formula.py", "dt = datetime(2001, 1, 1) + timedelta(seconds=node.AST_date_node_dateNum)", "dt = datetime(1970, 1, 1) + timedelta(seconds=node.AST_date_node_dateNum)", "C08.R5"),
+    T("date-epoch-constant-renamed-local", "formula.py", "        dt = datetime(2001, 1, 1) + timedelta(seconds=node.AST_date_node_dateNum)  # noqa: DTZ001\n        self.push(f\"DATE({dt.year},{dt.month},{dt.day})\")",
+      "        seconds = node.AST_date_node_dateNum\n        when = EPOCH + timedelta(seconds=seconds)\n        self.push(f\"DATE({when.year},{when.month},{when.day})\")",
+      more=[("formula.py", "from numbers_parser.constants import DECIMAL128_BIAS, OPERATOR_PRECEDENCE", "from numbers_parser.constants import DECIMAL128_BIAS, EPOCH, OPERATOR_PRECEDENCE")]),
     M("string-no-doubling", "formula.py", """value = node.AST_string_node_string.replace('"', '""')""", "value = node.AST_string_node_string", "C08.R5"),
     M("negate-postfix", "formula.py", 'self.push(f"-{arg1}")', 'self.push(f"{arg1}-")', "C08.R3"),
     M("equals-swapped", "formula.py", 'self.push(f"{arg2}={arg1}")', 'self.push(f"{arg1}={arg2}")', "C08.R2"),
